@@ -1259,7 +1259,9 @@ func selectReverseStrategy(n *nfa.NFA, re *syntax.Regexp, literals *literal.Seq,
 			// Use whitelist approach: only enable ReverseSuffix for patterns
 			// where reverse search is proven to work correctly.
 			// Patterns like "0?0", "0?^0" have bugs in reverse NFA.
-			if !isSafeForReverseSuffix(re) {
+			// The prefix is searched backwards with a reverse NFA, which turns
+			// assertions into epsilon edges: (?:^|,)[a-c]+d would match "7cd".
+			if !isSafeForReverseSuffix(re) || reverseDropsAssertion(re) {
 				return 0 // Fall through to other strategies
 			}
 			return UseReverseSuffix // Good suffix literal available
@@ -1270,7 +1272,7 @@ func selectReverseStrategy(n *nfa.NFA, re *syntax.Regexp, literals *literal.Seq,
 	// for Teddy multi-suffix prefilter. This handles patterns like `.*\.(txt|log|md)`.
 	// Must also pass isSafeForReverseSuffix to reject patterns without wildcard prefix
 	// (e.g., `[cgt]gggtaaa|tttaccc[acg]` — Issue #116).
-	if isSafeForReverseSuffix(re) && shouldUseReverseSuffixSet(literals, suffixLiterals) {
+	if isSafeForReverseSuffix(re) && !reverseDropsAssertion(re) && shouldUseReverseSuffixSet(literals, suffixLiterals) {
 		return UseReverseSuffixSet
 	}
 
